@@ -13,7 +13,7 @@ RULE = ("scenario = run_forever(reconnect=r), r in {1/4, 1, 5, 30} s (argument o
         "established then server close frame (optionally followed at once by a reset)} with 0..3 messages on every established connection; optional close() from "
         "the k-th on_message callback, from a second thread at a virtual time (built-in loop) or from a timer of the external "
         "dispatcher (including inside the back-off wait); "
-        "on_reconnect given or not; built-in loop and the SimRel external-dispatcher stub; seeded schedules.  Oracle from "
+        "optionally an application thread sitting in send() across the loss (server window closed); on_reconnect given or not; built-in loop and the SimRel external-dispatcher stub; seeded schedules.  Oracle from "
         "the network log and the callback trace: after an abnormal loss observed at L the next connection attempt starts "
         "at A with r <= A-L <= r+5 s (after a ping timeout: within the liveness bound); attempts repeat until one "
         "succeeds; success fires on_reconnect (else on_open) and that connection's messages are delivered; no on_close in "
@@ -61,6 +61,10 @@ def expand(item, seed):
                 if "ping_timeout" in sq:
                     sc["ping"] = {"interval": 2 * S, "timeout": S}
                 yield sc
+                if sq and sq[0] == "ping_timeout" and onrec and item["disp"] == "builtin":
+                    # an application thread sits in send() from before the first ping until well after the replacement
+                    # connection is up (the server's window stays closed): the old ping thread is stuck behind it
+                    yield dict(sc, sender={"at": S, "block": 14 * S, "len": 50})
                 if "ping_timeout" in sq and onrec:
                     yield dict(sc, reconnect=5 * S, outcomes=[dict(_out(x), then_eof=True) if x == "ping_timeout" else _out(x) for x in sq] + [_out("server_close", 2)])
                 if onrec and len(sq) <= 1:
@@ -103,8 +107,11 @@ def gen(rng):
         sc["closer"] = {"kind": "callback", "n": rng.randrange(1, 5)}
     sc["policy"] = rng.choice(({"kind": "coop", "p_call": 0.0}, {"kind": "coop", "p_call": 0.3},
                                {"kind": "prob", "p_line": 1 / 64, "p_call": 0.3}))
+
     if rng.random() < 0.15:
         sc["tls"] = True
+    elif disp == "builtin" and sc.get("ping") and not sc.get("closer") and outs[0]["kind"] in ("ping_timeout", "eof", "reset") and rng.random() < 0.3:
+        sc["sender"] = {"at": rng.choice((S // 2, S)), "block": rng.choice((6, 10, 14, 20)) * S, "len": 50}
     return sc
 
 
@@ -208,7 +215,10 @@ def run(sc, choices=None):
     horizon = sum(int(o.get("at", S)) for o in outs) + (len(outs) + 2) * (rr + 6 * S) + 60 * S
     if ping:
         horizon += len(outs) * (3 * int(ping["interval"]) + 3 * int(ping["timeout"]))
-    asc = {"conns": conns, "callbacks": cbs, "run": runopt, "closer": app_closer, "policy": sc.get("policy"),
+    sender = sc.get("sender")
+    if sender is not None and (disp != "builtin" or sc.get("tls") or closer):
+        raise InvalidScenario("the blocked application thread is combined with the built-in loop, plain transport, no close()")
+    asc = {"conns": conns, "callbacks": cbs, "run": runopt, "closer": app_closer, "policy": sc.get("policy"), "sender": sender,
            "seed": sc.get("seed", 1), "time_cap_s": int(horizon / S) + 100, "step_cap": 1_500_000, "linger": rr + 8 * S,
            "max_attempts": len(outs) + 12}
     out = run_app(asc, choices)
@@ -311,8 +321,22 @@ def run(sc, choices=None):
     exits = {e[4]: e for e in log if e[3] == "exit"}
     for a, b in zip(spawns, spawns[1:]):
         if a[4] not in exits or exits[a[4]][0] > b[0]:
-            res.violate("two_live_ping_threads", ctxd, f"ping thread {b[4]} started while {a[4]} was still alive")
+            if sender is not None and a[4] in exits:
+                # the old ping thread was stuck behind the application's blocked send() (it could not even notice that it
+                # had been told to stop): it must be harmless - gone once unstuck, no ping of its own on a later connection
+                continue
+            res.violate("two_live_ping_threads", ctxd, f"ping thread {b[4]} started while {a[4]} was still alive"
+                        + (" and it never exited" if sender is not None else ""))
             return _fin(res, sc, outs, closer_phase)
+    if ping:
+        # pings on one connection are one interval apart: two ping threads feeding one connection show as a faster cadence
+        for pi, pr in enumerate(p_ for p_ in out["peers"] if hasattr(p_, "frames")):
+            tms = [tm for f, _, tm in pr.frames if f.opcode == 9]
+            for x, y in zip(tms, tms[1:]):
+                if y - x < int(ping["interval"]) - S // 8:
+                    res.violate("two_live_ping_threads", ctxd, f"connection #{pi}: pings {(y - x) / S}s apart, interval {int(ping['interval']) / S}s "
+                                f"(a ping thread of an earlier connection is still pinging)")
+                    return _fin(res, sc, outs, closer_phase)
     # ---------------------------------------------------------------- callbacks
     exp = []
     ei = 0
@@ -368,4 +392,4 @@ def _fin(res, sc, outs, closer_phase):
 
 
 def sample_view(sc, r):
-    return {k: sc.get(k) for k in ("outcomes", "reconnect", "via", "on_reconnect", "dispatcher", "closer", "ping", "policy")}
+    return {k: sc.get(k) for k in ("outcomes", "reconnect", "via", "on_reconnect", "dispatcher", "closer", "ping", "policy", "sender")}
